@@ -189,6 +189,7 @@ func (m *MTProto) makeRequest(data tl.Object, expectedTypes ...reflect.Type) (an
 	}
 
 	response := <-resp
+	verifPoint("call.response", data, response)
 
 	switch r := response.(type) {
 	case *objects.RpcError:
@@ -333,6 +334,8 @@ func (m *MTProto) processResponse(msg messages.Common) error {
 		return errors.Wrap(err, "unmarshaling response")
 	}
 
+	verifPoint("recv.dispatch", data)
+
 messageTypeSwitching:
 	switch message := data.(type) {
 	case *objects.MessageContainer:
@@ -347,6 +350,7 @@ messageTypeSwitching:
 		m.serverSalt = message.NewSalt
 		err := m.SaveSession()
 		check(err)
+		verifPoint("salt.adopted", message.NewSalt, message.BadMsgID)
 
 		// server rejected exactly one message: message.BadMsgID. only its sender has to repeat the request (with a new
 		// message id, under the new salt), all other requests are accepted by server and will be answered. waiter is
